@@ -186,7 +186,82 @@ func (g *guardEnv) predsAt(b *ssa.BasicBlock, k elemKey) predSet {
 	for f := range g.facts[b] {
 		out |= g.predOfFact(f, k, b)
 	}
+	if out&pIf == 0 && g.conditionsExhausted(k, b) {
+		out |= pIf
+	}
 	return out
+}
+
+// conditionsExhausted: block `at` lies behind a loop over the If list of element k that calls every condition with
+// the request and leaves the iteration of the outer loop as soon as one answers false (a labelled continue, no
+// flag): `at` is reached only through the exhaustion of that loop.
+func (g *guardEnv) conditionsExhausted(k elemKey, at *ssa.BasicBlock) bool {
+	fn := g.fn
+	var cond *ssa.Call
+	eachInstr(fn, func(i ssa.Instruction) {
+		call, ok := i.(*ssa.Call)
+		if !ok || !isDynamicCall(&call.Call) || len(call.Call.Args) != 1 || !g.isReq(call.Call.Args[0]) {
+			return
+		}
+		u, ok := strip(call.Call.Value).(*ssa.UnOp)
+		if !ok {
+			return
+		}
+		ia, ok := u.X.(*ssa.IndexAddr)
+		if !ok {
+			return
+		}
+		b, f, ok := fieldLoad(strip(ia.X))
+		if ok && f.Name() == "If" && sameKey(g.resolveKey(b), k) {
+			cond = call
+		}
+	})
+	if cond == nil {
+		return false
+	}
+	header, loop := innermostLoop(cond.Block())
+	if header == nil || loop[at] || !header.Dominates(at) {
+		return false
+	}
+	iff, ok := cond.Block().Instrs[len(cond.Block().Instrs)-1].(*ssa.If)
+	if !ok {
+		return false
+	}
+	pol := true
+	c := iff.Cond
+	for {
+		u, ok := c.(*ssa.UnOp)
+		if !ok || u.Op != token.NOT {
+			break
+		}
+		c, pol = u.X, !pol
+	}
+	if c != ssa.Value(cond) {
+		return false
+	}
+	failSucc, passSucc := cond.Block().Succs[1], cond.Block().Succs[0]
+	if !pol {
+		failSucc, passSucc = passSucc, failSucc
+	}
+	var barrier *ssa.BasicBlock
+	if k.Idx != nil {
+		if ins, ok := k.Idx.(ssa.Instruction); ok {
+			barrier = ins.Block()
+		}
+	}
+	if barrier == nil {
+		return false
+	}
+	if reachEdgeSensitiveAvoid(failSucc, cond.Block(), barrier)[at] {
+		return false
+	}
+	// a passing condition goes on to the next one: it does not reach `at` except through the header
+	for b := range reachableBlocks([]*ssa.BasicBlock{passSucc}, map[*ssa.BasicBlock]bool{header: true}) {
+		if b == at {
+			return false
+		}
+	}
+	return true
 }
 
 func (g *guardEnv) predOfFact(f condFact, k elemKey, at *ssa.BasicBlock) predSet {
